@@ -206,7 +206,7 @@ FENCE_FAMILIES += [
     "x = f'{a!r !s}'\n", "x = f'{a:>{'\n", "x = f'{a=!}'\n", "x = f'{=}'\n", "x = f'{a = = }'\n", "x = f'{lambda x: 1}'\n", "x = f'{a:{b:{c:{d}}}}'\n", "x = f'{a;b}'\n", "x = f'{a #}'\n",
     "x = f'{*a}'\n", "x = f'{**a}'\n", "x = f'{a:=1}'\n" if False else "x = f'{:}'\n", "x = f'{yield}' y\n", "x = f'a' b\n", "x = f'{a}' 1\n", "x = f'{a}'f\n", "x = f'{a' '}'\n", "x = f'{\n}'\n", "x = f'{a\n}'\n",
     # literal text that spells a keyword or operator; an escaped backslash before the line end; the closing quote inside an open format spec
-    "f'{lambda:None}'\n", "f'{lambda:...}'\n", "f'{lambda:-1}'\n", "f'{a if b:else}'\n", "f'{a:)}' )\n", "x = f'\\\\\n'\n", "x = '\\\\\n'\n", "x = b'a\\\\\nb'\n", "f'''{a:'''\n}'''\n",
+    "f'{lambda:None}'\n", "f'{lambda:...}'\n", "f'{lambda:{b}}'\n", "f'{lambda x:{x}}'\n", "f'''{\n lambda:{b}}'''\n", "f'{a}{lambda:[1]}'\n", "f'{lambda:-1}'\n", "f'{a if b:else}'\n", "f'{a:)}' )\n", "x = f'\\\\\n'\n", "x = '\\\\\n'\n", "x = b'a\\\\\nb'\n", "f'''{a:'''\n}'''\n",
     'f"""{a:>{w}"""\n}"""\n', "f'{a:'\n}'\n",
     "x = fb'a'\n", "x = bf'a'\n", "x = fu'a'\n", "x = uf'a'\n", "x = ff'a'\n", "x = rfr'a'\n", "x = ub'a'\n", "x = ur'a'\n", "x = bu'a'\n",
 ]
